@@ -2,9 +2,10 @@
 (see harness/ties.py for the item format).
 
 What `Reader.read` does to the data is array code (`self._raw[nsel, :].astype(np.float32)[..., csel]`, `darray *= s2v[csel]`) and
-type dispatch (`isinstance(item, tuple)`), which the translator's subset (integer expressions, comparisons, calls named as events
-in expression / assignment statements) cannot express; that part stays with the hand model + the bit-exact correspondence run.
-Translated instead is everything integer the read depends on:
+type dispatch (`isinstance(item, tuple)`).  The array statements are tied as whole-statement events (their text is matched by a
+regular expression, the variables they read are captured); what they COMPUTE stays with the hand model + the bit-exact
+correspondence run, and so does the dispatch of `__getitem__` / `read_samples` (values of `return` statements that are calls are
+outside the translator's subset).  Translated besides is everything integer the read depends on:
 
   * `_get_type_from_meta`             the band decision: the KEY under which `read` looks up its volts-per-bit vector
   * `_get_sync_trace_indices_from_meta` which meta entry is the number of sync words (imec: snsApLfSy[2], nidq: snsMnMaXaDw[-1]);
@@ -12,8 +13,13 @@ Translated instead is everything integer the read depends on:
                                       arguments, so `[2]` -> `[1]` no longer elaborates
   * `_get_nchannels_from_meta`        `nc` = nSavedChans
   * `geometry_from_meta`              `th["ind"]` and the `sort=False` index, element by element (`np.arange`)
-  * `Reader.__init__`                 the calls that set up the channel order: geometry_from_meta(self.meta, return_index=True,
-                                      sort=sort) (the `sort` argument forwarded), then np.arange(self.nc)
+  * `Reader.__init__`                 the statements that set up the channel order: geometry_from_meta(self.meta,
+                                      return_index=True, sort=sort) (the `sort` argument forwarded), np.arange(self.nc), the prefix
+                                      assignment raw_channel_order[:order.size] = order
+  * `Reader.read`                     its three array statements as whole-statement events, in order, each with the VARIABLES it
+                                      reads: the permuted `csel` is the index of BOTH the column gather and the gain gather
+  * `geometry_from_meta`              its ordering statements: ind = arange, sort keys (the signs of col / row / shank are captured
+                                      as integers), lexsort, re-indexing of every vector; arange when sort is off
   * module-level `read`               forwards (first_sample, last_sample) unchanged to `Reader.read_samples`
 """
 
@@ -37,9 +43,50 @@ SPEC = {
                     r'open and self\.file_bin': False},
          'params': ['self_nc'],
          'events': [
-             [r'^geometry_from_meta\(self\.meta, return_index=True, sort=sort\)$', 'geometry_sort_forwarded', []],
-             [r'^geometry_from_meta\(', 'geometry_other', []],
-             [r'^np\.arange\((.+)\)$', 'arange', [r'\1']],
+             [r'^self\.geometry, order = geometry_from_meta\(self\.meta, return_index=True, sort=sort\)$',
+              'geometry, order = geometry_from_meta(meta, sort=sort)', [], 'stmt'],
+             [r'geometry_from_meta\(', 'geometry_from_meta: other call', [], 'stmt'],
+             [r'^self\.raw_channel_order = np\.arange\((.+)\)$', 'raw_channel_order = arange', [r'\1'], 'stmt'],
+             [r'^self\.raw_channel_order\[:order\.size\] = order$', 'raw_channel_order[:order.size] = order', [], 'stmt'],
+             [r'raw_channel_order', 'raw_channel_order: other statement', [], 'stmt'],
+         ]},
+        # the array statements of Reader.read, in order, with the variables each one reads (whole-statement events; any other
+        # assignment / augmented assignment / expression statement of the function shows up as 'other statement')
+        {'name': 'read_statements', 'module': 'spikeglx.py', 'function': 'Reader.read', 'kind': 'events',
+         'assume': {r'not self\.is_open': False, r"hasattr\(self, 'raw_channel_order'\)": True, 'sync': False},
+         'free': ['csel', 'darray'], 'params': ['nsel', 'csel'],
+         'events': [
+             [r'^(\w+) = self\.raw_channel_order\[(\w+)\]$', 'csel = raw_channel_order[csel]', [r'\1', r'\2'], 'stmt'],
+             [r'^darray = self\._raw\[(\w+), :\]\.astype\(np\.float32, copy=True\)\[\.\.\., (\w+)\]$',
+              'darray = raw[nsel, :].astype(float32)[..., csel]', [r'\1', r'\2'], 'stmt'],
+             [r'^darray \*= self\.channel_conversion_sample2v\[self\.type\]\[(\w+)\]$', 'darray *= s2v[type][csel]', [r'\1'], 'stmt'],
+             [r'.', 'other statement', [], 'stmt'],
+         ]},
+        {'name': 'geom_sort_statements', 'module': 'spikeglx.py', 'function': 'geometry_from_meta', 'kind': 'events',
+         'assume': {r'cm is None or .*': False, r"'x' in cm\.keys\(\)": False, 'sort': True, 'return_index': True,
+                    'major_version == 1': False},
+         'free': ['th', 'cm'],
+         'events': [
+             [r"^th\['ind'\] = np\.arange\(th\['col'\]\.size\)$", 'ind = arange(n)', [], 'stmt'],
+             [r"^sort_keys = np\.c_\[(-?)th\['col'\], (-?)th\['row'\], (-?)th\['shank'\]\]$", 'keys = (±col, ±row, ±shank)',
+              [r'\g<1>1', r'\g<2>1', r'\g<3>1'], 'stmt'],
+             [r"^inds = np\.lexsort\(sort_keys\.T\)$", 'inds = lexsort(keys), last key first', [], 'stmt'],
+             [r"^th = \{k: v\[inds\] for k, v in th\.items\(\)\}$", 'every vector reindexed by inds', [], 'stmt'],
+             [r"^inds = np\.arange\(th\['col'\]\.size\)$", 'inds = arange(n)', [], 'stmt'],
+             [r"sort_keys|inds|th\['ind'\]", 'other ordering statement', [], 'stmt'],
+         ]},
+        {'name': 'geom_nosort_statements', 'module': 'spikeglx.py', 'function': 'geometry_from_meta', 'kind': 'events',
+         'assume': {r'cm is None or .*': False, r"'x' in cm\.keys\(\)": False, 'sort': False, 'return_index': True,
+                    'major_version == 1': False},
+         'free': ['th', 'cm'],
+         'events': [
+             [r"^th\['ind'\] = np\.arange\(th\['col'\]\.size\)$", 'ind = arange(n)', [], 'stmt'],
+             [r"^sort_keys = np\.c_\[(-?)th\['col'\], (-?)th\['row'\], (-?)th\['shank'\]\]$", 'keys = (±col, ±row, ±shank)',
+              [r'\g<1>1', r'\g<2>1', r'\g<3>1'], 'stmt'],
+             [r"^inds = np\.lexsort\(sort_keys\.T\)$", 'inds = lexsort(keys), last key first', [], 'stmt'],
+             [r"^th = \{k: v\[inds\] for k, v in th\.items\(\)\}$", 'every vector reindexed by inds', [], 'stmt'],
+             [r"^inds = np\.arange\(th\['col'\]\.size\)$", 'inds = arange(n)', [], 'stmt'],
+             [r"sort_keys|inds|th\['ind'\]", 'other ordering statement', [], 'stmt'],
          ]},
         {'name': 'module_read', 'module': 'spikeglx.py', 'function': 'read', 'kind': 'events',
          'params': ['first_sample', 'last_sample'],
@@ -51,8 +98,10 @@ SPEC = {
     ],
     'theorems': ['IblVerif.Tie.C01.type_from_meta_eq', 'IblVerif.Tie.C01.nsync_entry_eq', 'IblVerif.Tie.C01.nchannels_eq',
                  'IblVerif.Tie.C01.unsorted_index_eq', 'IblVerif.Tie.C01.init_order_calls_eq', 'IblVerif.Tie.C01.module_read_eq',
+                 'IblVerif.Tie.C01.read_statements_eq', 'IblVerif.Tie.C01.geom_order_statements_eq',
                  'IblVerif.Tie.C01.s2v_np1_from_source', 'IblVerif.Tie.C01.s2v_np2_from_source'],
     'covers': '_get_type_from_meta (band = key of the volts-per-bit vector), _get_sync_trace_indices_from_meta (meta entry that '
-              'counts the sync words), _get_nchannels_from_meta, geometry_from_meta (ind / unsorted index), Reader.__init__ (calls '
-              'that set up raw_channel_order, sort forwarded), module-level read (first/last forwarded)',
+              'counts the sync words), _get_nchannels_from_meta, geometry_from_meta (ind / unsorted index; ordering statements with '
+              'the key signs), Reader.__init__ (statements that set up raw_channel_order, sort forwarded), Reader.read (its three '
+              'array statements and the variables they read), module-level read (first/last forwarded)',
 }
